@@ -191,12 +191,12 @@ unit the stored interval and the reported rate describe the same sampling,
 (≈ 9.4 min), within binary64 resolution of the rate beyond -/
 theorem attrs_rate_interval_path {s : Spec} {a : Axis} {x : Rat} {u : TimeUnit}
     (h : mkUniform .intended s = .ok a) (hd : s.data = none)
-    (hi : s.interval = some (.num (.flt x))) (hu : s.unit = .ok u) (hx : 0 < x) :
+    (hi : s.interval = some (.num (.flt x))) (hr : s.rate = none) (hu : s.unit = .ok u) (hx : 0 < x) :
     0 < a.rate ∧ |(a.dt : Rat) - 10 ^ 12 / a.rate| ≤ 1 / 2 + 5 * (10 ^ 12 / a.rate) / 2 ^ 53 ∧
     (10 ^ 12 / a.rate ≤ 2 ^ 49 → |(a.dt : Rat) - 10 ^ 12 / a.rate| < 1) := by
-  obtain ⟨_, r, hr, hb⟩ := mkUniform_inv h
+  obtain ⟨_, r, hr', hb⟩ := mkUniform_inv h
   obtain ⟨_, _, hdt, hrate, _, _, _⟩ := build_intended hb
-  obtain ⟨_, e1, e2, _, _⟩ := resolve_interval_flt hr hd hi hu
+  obtain ⟨_, e1, e2, _, _⟩ := resolve_interval_flt hr' hd hi hr hu
   rw [hdt, hrate, e1, e2]
   obtain ⟨c1, c2⟩ := interval_rate_close u x hx
   refine ⟨c1, c2, fun hP => lt_of_le_of_lt c2 ?_⟩
@@ -236,7 +236,7 @@ theorem same_sampling_interval_vs_rate {l : Nat} {t : Option TArg} {u : TimeUnit
     a.t0 = a'.t0 ∧ a.dt = a'.dt ∧ a.n = a'.n ∧ a.dur = a'.dur ∧ samples a = samples a' := by
   obtain ⟨_, r, hr, hb⟩ := mkUniform_inv h
   obtain ⟨_, r', hr', hb'⟩ := mkUniform_inv h'
-  obtain ⟨_, e1, e2, _, e4⟩ := resolve_interval_flt hr rfl rfl rfl
+  obtain ⟨_, e1, e2, _, e4⟩ := resolve_interval_flt hr rfl rfl rfl rfl
   obtain ⟨x', ex, f1, f2, _, f4⟩ := resolve_rate_freq hr' rfl rfl rfl rfl
   obtain ⟨k1, x'', ex'', k2⟩ := same_sampling_interval_rate u x k hx hk hlt
   rw [ex] at ex''
@@ -251,6 +251,47 @@ example :
     dtOf (mkUniform .intended { length := some 4, interval := some (.num (.flt (1 / 2))), unit := .ok .s }) = some 500000000000 ∧
     mkUniform .intended { length := some 4, rate := some (.freq (frequency (F64.fdiv 1 (1 / 2)) .s)), unit := .ok .s }
       = mkUniform .intended { length := some 4, interval := some (.num (.flt (1 / 2))), unit := .ok .s } := by
+  decide +kernel
+
+/-- `rebuilt_axis_identical`: an axis rebuilt from an existing well-formed axis with no further
+specification is that axis (start, interval, count, duration, rate, unit — hence every sample), for
+EVERY interval (no bound: the exact integer interval is inherited, nothing is re-derived from the
+binary64 rate); with `time_unit=u` only the unit label changes; with `length=l` only the count and
+the duration it covers change -/
+theorem rebuilt_axis_identical (a : Axis) (hdt : 0 < a.dt) (hdur : a.dur = (a.n : Int) * a.dt) :
+    mkUniform .intended { data := some a } = .ok a ∧
+    (∀ u, mkUniform .intended { data := some a, unit := .ok u } = .ok { a with unit := u }) ∧
+    (∀ l : Nat, mkUniform .intended { data := some a, length := some l }
+        = .ok { a with n := l, dur := (l : Int) * a.dt }) := by
+  have hv0 : [false, false, false, false] ∈ validTspecs true := by decide
+  have hv3 : [false, false, true, false] ∈ validTspecs true := by decide
+  obtain ⟨w0, w1, w2, w3, w4⟩ := wd_table
+  have hnot : ¬ a.dt ≤ 0 := by omega
+  have hcb : countBefore a.dur a.dt = a.n := by rw [hdur]; exact countBefore_mul _ _ hdt
+  refine ⟨?_, ?_, ?_⟩
+  · simp [mkUniform, checkTspec, tspecOf, hv0, resolve, inherit, w0, checkUnit, inferUnit,
+      deriveIntervalRate, durationPs, targPs, build, hnot, hcb, bind, Except.bind, pure, Except.pure]
+    rw [← hdur]
+  · intro u
+    simp [mkUniform, checkTspec, tspecOf, hv0, resolve, inherit, w0, checkUnit, inferUnit,
+      deriveIntervalRate, durationPs, targPs, build, hnot, hcb, bind, Except.bind, pure, Except.pure]
+    exact hdur.symm
+  · intro l
+    simp [mkUniform, checkTspec, tspecOf, hv3, resolve, inherit, w0, w1, w2, w3, checkUnit, inferUnit,
+      deriveIntervalRate, durationPs, targPs, build, hnot, bind, Except.bind, pure, Except.pure]
+
+
+/-- a 3-sample axis with interval 2⁵³+1 ps (not a binary64 value), with the rate it reports -/
+def axBig : Axis :=
+  { t0 := 5, dt := 2 ^ 53 + 1, n := 3, dur := 3 * (2 ^ 53 + 1),
+    rate := frequency (F64.fdiv 1 (F64.fdiv (F64.ofInt (2 ^ 53 + 1)) (cf .ps))) .ps, unit := .ps }
+
+/-- re-deriving the interval from the source's binary64 rate (what the code did before the repair
+`C02-from-axis-interval.diff`) loses a picosecond and gains a sample; inheriting it does not -/
+theorem rebuilt_axis_counterexample :
+    dtOf (mkUniform .current { data := some axBig }) = some (2 ^ 53) ∧
+    countOf (mkUniform .current { data := some axBig }) = some 4 ∧
+    mkUniform .intended { data := some axBig } = .ok axBig := by
   decide +kernel
 
 /-! ### exact binary64 witnesses: what today's code does, and what the intended model does -/
